@@ -29,32 +29,7 @@ def join (d : List α) : List (List α) → List α
   | [x] => x
   | x :: xs => x ++ d ++ join d xs
 
--- spike
-theorem join_splitFuel (d : List α) (hd : d ≠ []) :
-    ∀ (n : Nat) (cur l : List α), l.length < n → join d (splitFuel d n cur l) = cur.reverse ++ l := by
-  intro n
-  induction n with
-  | zero => intro cur l h; omega
-  | succ n ih =>
-    intro cur l h
-    cases l with
-    | nil => simp [splitFuel, join]
-    | cons c t =>
-      simp only [splitFuel]
-      split
-      · rename_i hp
-        have hpre : d <+: (c :: t) := List.isPrefixOf_iff_prefix.mp hp
-        obtain ⟨s, hs⟩ := hpre
-        have hlen : ((c :: t).drop d.length).length < n := by
-          have : 0 < d.length := List.length_pos_iff.mpr hd
-          simp only [List.length_drop, List.length_cons] at *
-          omega
-        have hdrop : (c :: t).drop d.length = s := by
-          rw [← hs]; simp
-        have := ih [] ((c :: t).drop d.length) hlen
-        cases hsp : splitFuel d n [] ((c :: t).drop d.length) with
-        | nil => simp [hsp, join] at this ⊢; sorry
-        | cons x xs => sorry
-      · sorry
+-- (an unfinished proof sketch of `join d (split d l) = l` was removed here; the real
+-- lemma is `fields_reconstruct` in DESIGN.md §C01)
 
 end Spike
